@@ -53,6 +53,9 @@ READINGS (the oracle is written under these; each is the reading under which the
 STREAMS (requests to the Lean driver drv_c03)
   lin   (i)   abstract measure content  ->  `linearize` must give the event list parsed from the bytes written
   wf          the hypothesis `MeasureWF` of the theorem reader_writer holds for every measure of a score in the domain
+  stab        every measure of the score LOADED from the file (its notes with the voices read) -> `assignVoices` = `partitionVoices`
+              (second_export_moves_nothing) must hold exactly when the file written from the loaded score gives every note
+              the voice it was loaded with
   int 0 (ii)  events parsed from the bytes ->  `readMeasure` must give what load_musicxml produced (doc order)
   snd   (ii)  events parsed from the bytes ->  `interpret` (MusicXML semantics) must give the score's own notes
   numg / num  the numbers written for slurs+tuplets (per note, counter shared by the file) / wedges+dashes
@@ -70,6 +73,13 @@ STREAMS (requests to the Lean driver drv_c03)
               pairing of wedges, dashes and pedals through `ongoing`)
   slots       the wedge (dashes) numbers in document order -> `slotAll` must give the (start, stop) pairs of those objects
   rsound/rattr the element -> `readSound`/`readAttributes` must give what _handle_sound/_handle_attributes add to a scratch part
+  wattrs      the results of the five iteration calls of do_attributes (quarter durations, key and time signatures, staffs,
+              clefs with `getattr(clef, "number", 0)`; nothing else is mirrored) -> `doAttributes` (Model/XmlAttrs.lean: grouping
+              by time, clef lists sorted per time, the `staves_included` flag, the leaked `len(clefs)`) must give the
+              (time, <attributes>) list do_attributes returns
+  rsd         every <attributes> written -> `readStaffs` must give the score.Staff objects _handle_attributes adds (fix C03-20)
+  fattr       every <attributes> written for the score -> `writeAttributes (reexportItems …)` of what the model readers make of
+              it must give the <attributes> at the same place of save(load(save(s))) (attributes_fixpoint; scores in the domain)
  the tempo as a number (Model/Binary64.lean: decimal text -> rational -> binary64 by correct rounding):
   wsci        mantissa and exponent of the repr of a tempo below 1e-4 -> `writeSoundSci` must give the <sound> written
   fsound      the <sound> written -> `readSoundNum` (model of float(text)) must give the binary64 number m*2^e of the bpm
@@ -113,7 +123,7 @@ notes), tie_next/tie_prev, articulations, fingerings (all of them), stem, note f
 grace_next/grace_prev, notehead and its filled flag; slurs and tuplets (start/end note, times, the tuplet's four values);
 directions (class, text, raw text, staff, end, wedge, line: dynamics, wedges, dashes words, tempo/constant words, pedals); Words;
 tempi (quarter tempo, incl. non-whole and dotted units); repeats; endings (number); barline fermatas; harmony (roman numerals,
-chord symbols with kind and bass); cadences.
+chord symbols with kind and bass); cadences; staffs (time, lines).
 """
 import io
 import os
@@ -127,15 +137,17 @@ PROPERTY = "C03"
 DRIVER = "drv_c03"
 PROPS = ["PartituraModel.Props.C03", "PartituraModel.Props.C03Codec", "PartituraModel.Props.C03Bar",
          "PartituraModel.Props.C03PartList", "PartituraModel.Props.C03Gen", "PartituraModel.Props.C03Place",
-         "PartituraModel.Props.C03DirRead", "PartituraModel.Props.C03Fixpoint"]
+         "PartituraModel.Props.C03DirRead", "PartituraModel.Props.C03Fixpoint", "PartituraModel.Props.C03Attrs",
+         "PartituraModel.Props.C03Prints", "PartituraModel.Props.C03Stable"]
 TRUSTED = [
     "lxml serialisation/parsing (etree.tostring pretty_print, XMLParser remove_blank_text) is the identity on element trees whose "
     "texts are not blank; find/findall/xpath/iteration = `find`/`findall`/`findPath` of Model/XmlNote.lean",
     "Part.iter_all order inside a time point (class registry order) is taken from the implementation as input of the writer model",
-    "which objects do_attributes/do_directions turn into elements and at which time (the loop structure) is mirrored in the "
-    "harness, the elements themselves are modelled (streams wdir/wsound/wattr); for do_barlines/do_harmony/do_prints only the "
-    "`iter_all` calls are mirrored and everything after them is in the model (wbar/wharm/wprint); the split of a measure into "
-    "divisions segments is recomputed in the harness and checked through stream lin",
+    "which objects do_directions turns into elements and at which time (the loop structure) is mirrored in the "
+    "harness, the elements themselves are modelled (streams wdir/wsound); for do_attributes/do_barlines/do_harmony/do_prints "
+    "only the `iter_all` / `quarter_durations` calls are mirrored and everything after them is in the model "
+    "(wattrs/wbar/wharm/wprint; stream wattr still checks the single elements against a harness copy of the loop); the split "
+    "of a measure into divisions segments is recomputed in the harness and checked through stream lin",
     "PartGroup / Part objects as values with an identity number (`pg in group_stack`, `pg == group_stack[-1]` compare "
     "objects); `e.xpath('part-name/text()')` = the non-empty texts of the part-name children; str.upper / re.findall('[A-Z]+') "
     "of score.Cadence on ASCII letters (`Char.toUpper`, `Char.isUpper`)",
@@ -153,17 +165,24 @@ TRUSTED = [
 ]
 PARTIAL = [
     "byte-level fixpoint save(load(save(s))) == save(s) is compared on every case; proved is its element-level part "
-    "(note_fixpoint, direction_fixpoint, tempo_fixpoint, barline_fixpoint, harmony_fixpoint, print_fixpoint: writing what was "
-    "read from a written element gives the element again; partlist_fixpoint: the whole part list), not the re-linearisation "
-    "of a measure, <attributes>, nor lxml's serialisation",
+    "(note_fixpoint, direction_fixpoint, tempo_fixpoint, barline_fixpoint, harmony_fixpoint, print_fixpoint, "
+    "attributes_fixpoint: writing what was read from a written element gives the element again - for <attributes> with the "
+    "same <staves> value, which is compared (stream fattr), not derived; partlist_fixpoint: the whole part list), not the "
+    "re-linearisation of a measure: proved is that remove_voice_polyphony moves no note of a voice it produced, whatever the "
+    "order and the other fields of the notes read back (voices_stable, second_export_moves_nothing; stream stab evaluates it "
+    "on the measures of the loaded score for cases in the domain of the byte fixpoint); that the loaded segment IS the saved one voice by voice (reader_writer gives "
+    "onset, duration, voice, staff of every note; pitch order inside chords and grace chains come from the note codec) and "
+    "that sorting and merging it gives the same event list is compared on the bytes; nor lxml's serialisation",
     "the completion of half-open repeats and endings at the end of _parse_parts (measure_map / searchsorted heuristics) is not "
     "modelled: the exporter writes none, and `repeats_paired` / `endings_paired` assume the calls come in pairs (what "
     "non-overlapping repeats give; MusicXML has one <repeat> and one <ending> per barline and no nesting); that the document "
     "presents them in that order is checked by stream bars and the oracle, not proved",
     "`barlines_written` / `barline_position` speak about one divisions segment = one measure; a repeat, ending or barline "
     "fermata on a mid-measure change of divisions gets the location of the segment (outside the oracle's domain)",
-    "pages and systems: the <print> codec is proved (print_roundtrip), the numbering state machine `readPrints` is compared "
-    "only (pages and systems are not in the property's list)",
+    "pages and systems: the <print> codec (print_roundtrip) and the numbering state machine in closed form (prints_read, "
+    "pages_numbered, systems_numbered: any <print> sequence) are proved; that the pages of a SCORE come back (do_prints "
+    "composed with the reader over the measures) is not stated - it is false for systems (a <print new-page new-system> makes "
+    "two) and pages and systems are not in the property's list",
     "partlist_roundtrip / partlist_fixpoint are about forests whose groups all contain a part (a group without parts never "
     "reaches the file: the exporter walks up from the parts) and whose groups are different objects",
     "not modelled inside the modelled elements (the exporter writes none of them): <accidental> fallback for alter, <beam>, "
@@ -175,7 +194,11 @@ PARTIAL = [
     "numbers_distinct speaks about the order in which the exporter meets the ranges; that document-open wedges are counter-open "
     "when a new wedge is numbered (fix C03-6) is checked on the bytes by the oracle, not proved",
     "that the `<staves>` value is the number of staves is not claimed: do_attributes writes len() of a list that leaks out of a "
-    "loop (the clefs of the last clef time of the segment); the importer ignores <staves>; the model mirrors the code",
+    "loop (the clefs of the last clef time of the segment: `leakedLen`, example in Props/C03Attrs.lean), once per call, i.e. "
+    "per divisions segment (staves_written_once); the importer ignores <staves>; the model mirrors the code",
+    "attributes_written / attributes_read_back speak about one call of do_attributes (one divisions segment of a measure); "
+    "score.Staff: the exporter writes no `number` on <staff-details>, a staff with another number is read back as staff 1 "
+    "(staff_details_roundtrip says so; the oracle compares staffs by time and lines); <transpose> is not modelled",
 ]
 RULE = ("seeded structured scores (1-3 parts, nested groups, 1-3 staves, 1-4 voices or no voice numbers, shared or separate "
         "registers, chords of unequal duration, notes running past the next onset, gaps, silent measures, late entries, "
@@ -187,7 +210,7 @@ RULE = ("seeded structured scores (1-3 parts, nested groups, 1-3 staves, 1-4 voi
         "pedals, "
         "repeats/endings, barline and note fermatas, all sixteen articulations and unknown ones, 1-3 fingerings, stems, explicit "
         "symbolic durations with dots and tuplet ratios, unpitched notes with noteheads, clefs with octave change and without "
-        "line, key modes, harmony: roman numerals, chord symbols with and without kind and bass, cadences; two repeats meeting "
+        "line, key modes, score.Staff objects (0-3 times, 1..nstaves at a time, lines 5/1/4/6/11/0/None), harmony: roman numerals, chord symbols with and without kind and bass, cadences; two repeats meeting "
         "at a barline, repeats and endings that start or end inside a measure, barline fermatas without location) "
         "+ a family of one-voice scores in which every NUMBER printed is large (gen_numeric: a tempo "
         "in every measure, divisions up to 3628800 so that durations/backup/forward have 7-8 digits, measure names, "
@@ -205,7 +228,10 @@ LEVEL_TEXT = ("Lean 4 theorems over all measure contents / event streams about e
               "about the element codecs of <note>, <direction>, <sound tempo>, <attributes>, <barline>, <harmony>, <print> and "
               "the <part-list> (what the importer extracts from the element the exporter writes is exactly what the object "
               "denotes; every forest of parts and nested groups is written as its bracket sequence and parsed back as itself; "
-              "do_barlines loses and moves nothing; repeats and endings are paired through `ongoing`), about the position at "
+              "remove_voice_polyphony leaves the voices it produced alone on the next export; "
+              "do_barlines and do_attributes lose, duplicate and move nothing and what is read from each of their elements is "
+              "what the objects of its time denote; writing what was read gives the element again; repeats and endings are "
+              "paired through `ongoing`; pages and systems of any <print> sequence in closed form), about the position at "
               "which every non-note child of a measure is read (the onset it was written for), and over all binary64 numbers and "
               "rationals about the decimal-text round trip of a tempo (correct rounding returns the number in whose rounding "
               "interval the text lies, 17 significant digits always lie in it, a text further than half an ulp away is read "
@@ -613,6 +639,11 @@ def gen_extras(rng, d, nstaves):
             ex.append(["Cadence", rng.choice(inner), None, {"text": rng.choice(["PAC", "IAC", "HC", "pac", "hc:", "DC", "EC", "PC", "iac x", "miacx"])}])
     if r() < 0.01:
         ex.append(["Words", rng.choice(inner), None, {"text": rng.choice(PLAIN_WORDS)}])
+    if r() < 0.22:
+        # score.Staff objects (the kern importer makes one per staff): <staff-details>, at the start and / or later on
+        for t in sorted(set([0] * (r() < 0.8) + rng.sample(inner, min(len(inner), rng.choice([0, 0, 1, 2]))))):
+            for k in range(rng.choice([1, 1, nstaves])):
+                ex.append(["Staff", t, None, {"number": 1, "lines": rng.choice([5, 5, 5, 1, 4, 6, 0, None, 11])}])
 
 
 def gen_numeric(rng):
@@ -939,6 +970,8 @@ def abstract_part(part):
     A["barline_fermatas"] = _srt(((o.start.t, o.ref) for o in part.iter_all(S.Fermata) if not isinstance(o.ref, S.TimedObject)))
     A["harmony"] = _srt(((o.start.t, type(o).__name__, getattr(o, "text", None)) for o in part.iter_all(S.Harmony, include_subclasses=True)))
     A["cadences"] = _srt(((o.start.t, o.text) for o in part.iter_all(S.Cadence)))
+    # staffs by their lines (0 lines = none: not written); the exporter writes no staff number on <staff-details>
+    A["staffs"] = _srt(((o.start.t, o.lines or None) for o in part.iter_all(S.Staff)))
     return A
 
 
@@ -1465,6 +1498,19 @@ def attr_writer_streams(ev, p, a, b, X):
         last = clefs
         for o in clefs:
             by_start[t].append("clef %s %s %s %s" % (_eopt(W.i, o.staff), _enc(o.sign), _eopt(W.i, o.line), _eopt(W.i, o.octave_change)))
+    # wattrs: do_attributes as a whole == doAttributes of the results of its five iteration calls (grouping by time, clef
+    # lists sorted per time, the <staves> flag and the leaked length are the model's)
+    try:
+        qs = ["%d %d" % (int(t), int(q)) for t, q in p.quarter_durations(a.t, b.t)]
+        ks = ["%d %s %s" % (o.start.t, W.i(o.fifths), _eopt(_enc, o.mode)) for o in p.iter_all(S.KeySignature, a, b)]
+        tms = ["%d %s %s" % (o.start.t, W.i(o.beats), W.i(o.beat_type)) for o in p.iter_all(S.TimeSignature, a, b)]
+        sds = ["%d %s" % (o.start.t, _eopt(W.i, o.lines)) for o in p.iter_all(S.Staff, a, b)]
+        cls = ["%d %s %s %s %s %s" % (o.start.t, W.i(getattr(o, "number", 0)), _eopt(W.i, o.staff), _enc(o.sign), _eopt(W.i, o.line),
+                                      _eopt(W.i, o.octave_change)) for o in p.iter_all(S.Clef, a, b)]
+        ev.requests.append("wattrs " + " ".join("%d %s" % (len(x), " ".join(x)) for x in (qs, ks, tms, sds, cls)))
+        ev.impl.append("[" + ",".join("%d:%s" % (t, xml_text(el)) for t, _, el in res) + "]")
+    except (ValueError, TypeError):
+        pass
     ts = sorted(by_start)
     if len(ts) != len(res):
         ev.requests.append("wattr mismatch-of-lengths")
@@ -1484,7 +1530,7 @@ def attr_writer_streams(ev, p, a, b, X):
             continue
 
 
-def reader_streams(ev, wms):
+def reader_streams(ev, wms, wms2=None):
     """the non-note elements of one written part, in document order, through the model readers and through the importer's
     own handlers on a scratch part (direction i at position i):
       dirs   readDirections == what _handle_direction made of the sequence (objects, staff, start and end = pairing via ongoing)
@@ -1545,6 +1591,19 @@ def reader_streams(ev, wms):
                     ev.impl.append("[" + ",".join("(%d,%d)" % (st, en) for en, st in sorted(pairs)) + "]")
     except ValueError:
         pass
+    if wms2 is not None:
+        # fattr (attributes_fixpoint): the model's re-export of what it reads from an <attributes> element written for the
+        # score == the element at the same place of the file written from the LOADED score (given the <staves> of that one)
+        at1 = [el for el in els if el.tag == "attributes"]
+        at2 = [e[3] for (_, evs) in wms2 for e in evs if e[0] == "o" and e[3].tag == "attributes"]
+        if len(at1) == len(at2):
+            for e1, e2 in zip(at1, at2):
+                try:
+                    st2 = e2.find("staves")
+                    ev.requests.append("fattr %s %s" % (" ".join(xml_tokens(e1)), "-" if st2 is None else str(int(st2.text))))
+                    ev.impl.append(xml_text(e2))
+                except (ValueError, TypeError):
+                    continue
     for el in els:
         try:
             if el.tag == "sound":
@@ -1567,6 +1626,9 @@ def reader_streams(ev, wms):
                 ksg = [(o.fifths, o.mode) for o in scratch.iter_all(S.KeySignature)]
                 qd = [int(q) for t, q in zip(scratch._quarter_times, scratch._quarter_durations) if int(t) == 5]
                 clefs = [(o.staff, o.sign, o.line, o.octave_change) for o in scratch.iter_all(S.Clef)]
+                # rsd: the <staff-details> loop of _handle_attributes == readStaffs
+                ev.requests.append("rsd " + " ".join(xml_tokens(el)))
+                ev.impl.append("[" + ",".join("(%d,%s)" % (o.number, _eopt(W.i, o.lines)) for o in scratch.iter_all(S.Staff)) + "]")
                 ev.requests.append("rattr " + " ".join(xml_tokens(el)))
                 ev.impl.append("(%s,%s,%s,[%s])" % (
                     "%d/%d" % tsg[0] if tsg else "-",
@@ -2062,7 +2124,7 @@ def measure_segments(part, measure):
     return list(zip(splits[:-1], splits[1:]))
 
 
-def model_measure(part, measure, idx, X, placed=None):
+def model_measure(part, measure, idx, X, placed=None, with_others=True):
     """request tokens of one MeasureContent (`placed`, when given, collects onset, rank and signature of the other
     elements in the order they are written)"""
     import partitura.score as S
@@ -2084,7 +2146,7 @@ def model_measure(part, measure, idx, X, placed=None):
             for g in seq:
                 toks += [str(idx.get(id(g), 999999)), str(g.start.t), str(g.staff or 0)]
         others = (X.do_harmony(part, a, b) + X.do_attributes(part, a, b) + X.do_directions(part, a, b, {})
-                  + X.do_barlines(part, a, b) + X.do_prints(part, a, b))
+                  + X.do_barlines(part, a, b) + X.do_prints(part, a, b)) if with_others else []
         toks.append(str(len(others)))
         for (t, _, el) in others:
             toks += [str(int(t)), str(ORDER.get(el.tag, len(ORDER))), _sig(el)]
@@ -2407,7 +2469,7 @@ def _check_roundtrip(ev, s, what, streams, from_file):
     dyn_table(ev, X)
     partlist_streams(ev, s, root)
     for (pid, wms), p2 in zip(written, s2.parts):
-        reader_streams(ev, wms)
+        reader_streams(ev, wms, dict(written2).get(pid) if (not issues and written2 is not None) else None)
         bar_reader_streams(ev, wms, list(p2.iter_all(S.Measure)))
     range_streams(ev, s, s2, written, X)
     for p, (pid, wms), p2 in zip(s.parts, written, s2.parts):
@@ -2430,6 +2492,17 @@ def _check_roundtrip(ev, s, what, streams, from_file):
                 # (without voice numbers the loaded score has other voices than the saved one: see the byte fixpoint reading)
                 wms2 = dict(written2).get(pid)
             note_streams(ev, p, wms, loaded, {n.id: n for n in notes}, idx_of, wms2)
+            if wms2 is not None and len(wms2) == len(measures2):
+                # stab (second_export_moves_nothing): the notes of the LOADED score, measure by measure -> the model's
+                # remove_voice_polyphony leaves their voices alone  ==  in the file written from the loaded score every note
+                # has the voice the loaded note carries
+                by2 = {n.id: n for n in loaded}
+                idx2 = {id(n): i for i, n in enumerate(loaded)}
+                for m2, (_, evs2) in zip(measures2, wms2):
+                    ns2 = [e for e in evs2 if e[0] == "n"]
+                    if ns2 and all(e[1] in by2 for e in ns2):
+                        ev.requests.append("stab " + model_measure(p2, m2, idx2, X, with_others=False))
+                        ev.impl.append(W.b(all(e[5] == (by2[e[1]].voice or 0) for e in ns2)))
         for mi, (m, (_, evs)) in enumerate(zip(measures, wms)):
             # (i) writer model
             placed = []
@@ -2776,6 +2849,8 @@ def distribution(descs, results):
                 for f in ("qd", "slurs", "tuplets", "extras", "warm", "family"):
                     if p.get(f):
                         feats[f] += 1
+                if any(e[0] == "Staff" for e in p.get("extras", [])):
+                    feats["staff-objects"] += 1
                 for e in p.get("extras", []):
                     if e[0] == "Tempo":
                         r = repr(float(e[3]["bpm"]))
@@ -2818,4 +2893,20 @@ def distribution(descs, results):
                 br["prints:pages=%d" % min(3, im.split("],[")[0].count("(") - 1)] += 1
             elif k == "otr":
                 br["otr:others=%d" % min(4, im.count(":") // 2)] += 1
+            elif k == "wattrs":
+                n = im.count("(attributes;")
+                br["wattrs:elements=%d" % min(3, n)] += 1
+                if "(staves;" in im:
+                    # <staves> in the first element with a clef; `later`: elements without a clef come before it
+                    br["wattrs:staves" + (":later" if "(staves;" not in im.split("(attributes;")[1] else "")] += 1
+                    if n > 1 and "(clef;" in im.split("(staves;", 1)[1].split("(attributes;", 1)[-1] and im.count("(attributes;", im.index("(staves;")):
+                        br["wattrs:clef-after-staves-element"] += 1
+                if "(staff-details;" in im:
+                    br["wattrs:staff-details"] += 1
+            elif k == "stab":
+                br["stab:" + ("nothing-moves" if im == "1" else "second-export-moves-notes")] += 1
+            elif k == "rsd":
+                br["rsd:staffs=%d" % min(3, im.count("("))] += 1
+            elif k == "fattr":
+                br["fattr:" + ("+".join(t for t in ("divisions", "key", "time", "staff-details", "clef") if "(%s;" % t in im) or "empty")] += 1
     return {"by_kind": dict(c), "features": dict(feats), "requests": dict(req), "branches": dict(br)}
